@@ -2,7 +2,7 @@
 import random
 import re
 
-from .. import casing, common as c, corpus, l2, translate
+from .. import casing, common as c, corpus, l2, ovbins, translate
 
 THEOREMS = [("Sylvia.Thm.C12", "C12." + t) for t in
             ["lower_outcome", "step_equiv", "history_equiv", "failed_step_keeps_state", "handler_error_surfaces",
@@ -169,6 +169,28 @@ def split_steps(line):
     return [tuple(s.split(" @@ ", 1)) if " @@ " in s else (s, "") for s in line.split(" ;; ")]
 
 
+def override_stream(ctx):
+    """`impl cw_multi_test::Contract`: an overridden operation calls the override (with the decoded message / the Reply), the others dispatch"""
+    exes, errors = ovbins.build()
+    bad = 0
+    for s in ovbins.SETS:
+        n = ovbins.name_of(s)
+        if n in errors:
+            bad += 1
+            ctx.violation("valid-program-rejected", "a contract overriding the entry point(s) %s does not compile with the mt feature: %s" % (", ".join(s) or "none", errors[n][0][:240]),
+                          {"program": ovbins.source_of(s), "rustc": errors[n][:3], "how": "cargo build of the generated bin with sylvia features mt"})
+            continue
+        out = c.sh([exes[n]]).stdout.strip()
+        want = ovbins.expected(s)
+        if out != want:
+            bad += 1
+            ctx.violation("override-not-called", "overriding %s: observed %s, required %s" % (", ".join(s) or "nothing", out[:300], want[:300]),
+                          {"program": ovbins.source_of(s), "observed": out, "required": want})
+    ctx.add_stream("L2-mt-overrides", len(ovbins.SETS), len(ovbins.SETS), samples=[ovbins.name_of(s) for s in ovbins.SETS[:3]], override_sets=[",".join(s) for s in ovbins.SETS], oracle_failures=bad,
+                   note="each program: instantiate, exec (emitting a sub-message to itself with reply_always), sudo, migrate, query on a multitest chain; which overrides and which handlers ran")
+    ctx.cov["traces_validated_against_impl"] += len(ovbins.SETS)
+
+
 def run(ctx):
     ctx.cov["trusted_base"] = ["Lean 4.33 kernel", "axioms: propext, Classical.choice, Quot.sound only (audited)",
                                "cw-multi-test 2.3 (the chain both histories run on) and its modelled fragment: balances, contract records, atomic steps, its four own errors",
@@ -176,7 +198,7 @@ def run(ctx):
                                "python statement of what each proxy submits"]
     ctx.assumptions += ["handlers are the corpus' echo handlers (they write their echo to storage, fail on a storage marker or for the account `failer`, emit no sub-messages)",
                         "an error of a query handler reaches the caller as text through cosmwasm's querier on both paths; it is compared by the failing handler's id",
-                        "reply and the override attributes are not reachable through proxies (C06/C07 cover them)"]
+                        "overridden entry points are exercised through the chain's raw operations (stream L2-mt-overrides), reply through a self-addressed sub-message"]
     translate.regenerate()
     c.prove(ctx, sorted({m for m, _ in THEOREMS}), THEOREMS)
     progs, exes = l2.get_corpus(ctx)
@@ -259,6 +281,7 @@ def run(ctx):
     ctx.add_stream("L2-multitest", nsteps * 2, len(classes), samples=[";".join(hist[progs[0]["id"]][0][0])[:400]], programs=len(progs), histories=len(rows_p), steps=nsteps,
                    model_disagreements=bad_model, oracle_failures=bad_oracle, proxy_vs_raw_differences=bad_prop, step_kinds=kinds, result_classes=classes)
     ctx.cov["traces_validated_against_impl"] += nsteps * 2
+    override_stream(ctx)
     ctx.cov["rule"] = ("random histories (6-24 steps) per compiled generated contract: store, instantiate with random setter sequences (label, admin, funds, salt; repeated, unset), "
                        "exec with/without funds, query, sudo, migrate, failure markers; run through the generated proxies on one chain and, lowered by the model, as raw JSON on a "
                        "second identically seeded chain; after every step the result and the full chain state (contract records, storage, balances) of both chains and of the model are compared")
